@@ -249,6 +249,18 @@ func (st *reqState) onMethod(kind string, c *Ctrl) action {
 	return st.plannedAction()
 }
 
+// onChain is the method body of the chained Handle[*TCtrl] wrappers.
+func (st *reqState) onChain(k *TCtrl) {
+	if k == nil || k.inst == nil {
+		return
+	}
+	o := chainObs{id: k.id, scope: k.scope}
+	st.mu.Lock()
+	st.chain = append(st.chain, o)
+	st.mu.Unlock()
+	st.cs.sawInst(st.id, k.inst)
+}
+
 func (st *reqState) onScopeErrH() { st.mu.Lock(); st.scopeErrH++; st.mu.Unlock() }
 func (st *reqState) onResErrH()   { st.mu.Lock(); st.resErrH++; st.mu.Unlock() }
 func (st *reqState) onPanicH()    { st.mu.Lock(); st.panicH++; st.mu.Unlock() }
